@@ -210,6 +210,18 @@ theorem unV_safe (env : Env) (i : Instr) (a : Val) (t : Ty) (hwa : WF a) (_ : li
       subst he
       simp [Spec.unV, Spec.emitV, hta, litOk]
     · simp at h
+  · -- PACK
+    simp only [unTy, packTy] at h
+    split at h
+    · rename_i hp
+      have hs := optBoth_some Mode.strict a ta (by rw [← hta]; exact hwa) hp
+      simp only [Spec.unV, Spec.packV, hta, hp, Bool.not_true, Bool.false_eq_true, if_false, Spec.optimized]
+      cases hb : Spec.optBoth a with
+      | none => simp [hb] at hs
+      | some y =>
+        simp only [Option.map_some]
+        cases Spec.encodeM y.1 <;> simp
+    · simp at h
 
 section
 variable (env : Env) (st : List Val) (tr : TRes) (hw : StackWF st) (hg : GoodStack st)
@@ -382,5 +394,8 @@ theorem step_safe (env : Env) (i : Instr) (st : List Val) (tr : TRes) (hw : Stac
       (fun _ _ => rfl) (unV_safe env (.EMIT tag t)) hty
   case SELF ep t => simp [Spec.step, goodStack_cons, litOk, hg]
   case TRANSFER_TOKENS => exact safe_TRANSFER_TOKENS env st tr hw hg hty
+  case PACK =>
+    exact safe_unop env st tr hw hg .PACK (Spec.unV env .PACK) (unTy .PACK) (fun _ _ => rfl) rfl
+      (fun _ _ => rfl) (unV_safe env .PACK) hty
 
 end Interp
